@@ -1373,4 +1373,181 @@ theorem powmEven_correct (n : Nat) (bp ep modd rodd : List Nat) (nodd ncnt cnt :
   exact ⟨by rw [av, hypv, hcrt], aL, by rw [an, hypn]⟩
 
 
+
+/-! ### modlimb_invert and mpn_binvert (Newton lifting) -/
+
+/-- Newton step for a 2-adic inverse: if `x·u ≡ 1 (mod M)` then `x·(2 − u·x)·u ≡ 1 (mod M²)`. -/
+theorem newton_step (M x u : Int) (h : x * u ≡ 1 [ZMOD M]) : x * (2 - u * x) * u ≡ 1 [ZMOD M * M] := by
+  obtain ⟨c, hc⟩ := (Int.modEq_iff_dvd.mp h)
+  -- 1 - x u = M c
+  apply Int.modEq_iff_dvd.mpr
+  refine ⟨c * c, ?_⟩
+  have e : 1 - x * (2 - u * x) * u = (1 - x * u) * (1 - x * u) := by ring
+  rw [e, hc]; ring
+
+theorem minvTab_spec : ∀ i, i < 128 → (minvTab i * (2 * i + 1)) % 256 = 1 := by decide +kernel
+
+/-- `minvStep` is `2·inv − inv²·n` modulo `B`. -/
+theorem minvStep_modEq (inv n : Nat) : (minvStep inv n : Int) ≡ (inv : Int) * (2 - (n : Int) * inv) [ZMOD (B : Int)] := by
+  unfold minvStep
+  have h1 : ((inv * inv % B * n) % B : Nat) ≤ B := le_of_lt (Nat.mod_lt _ B_pos)
+  have e : ((2 * inv + B - (inv * inv % B * n) % B : Nat) : Int) = 2 * (inv : Int) + B - ((inv * inv % B * n % B : Nat) : Int) := by
+    rw [Nat.cast_sub (by omega)]; push_cast; ring
+  have h2 : ((inv * inv % B * n % B : Nat) : Int) ≡ (inv : Int) * inv * n [ZMOD (B : Int)] := by
+    have : (inv * inv % B * n % B : Nat) ≡ inv * inv * n [MOD B] :=
+      (Nat.mod_modEq _ _).trans ((Nat.mod_modEq _ _).mul_right n)
+    exact_mod_cast (Int.natCast_modEq_iff.mpr this)
+  have h3 : ((((2 * inv + B - (inv * inv % B * n) % B) % B : Nat)) : Int) ≡ ((2 * inv + B - (inv * inv % B * n) % B : Nat) : Int) [ZMOD (B : Int)] := by
+    exact_mod_cast (Int.natCast_modEq_iff.mpr (Nat.mod_modEq _ B))
+  refine h3.trans ?_
+  rw [e]
+  have h4 : 2 * (inv : Int) + B - ((inv * inv % B * n % B : Nat) : Int) ≡ 2 * (inv : Int) + 0 - (inv : Int) * inv * n [ZMOD (B : Int)] := by
+    apply Int.ModEq.sub _ h2
+    apply Int.ModEq.add_left
+    exact Int.modEq_iff_dvd.mpr ⟨-1, by ring⟩
+  refine h4.trans ?_
+  have : 2 * (inv : Int) + 0 - (inv : Int) * inv * n = (inv : Int) * (2 - (n : Int) * inv) := by ring
+  rw [this]
+
+
+theorem minvStep_lift (inv n k : Nat) (hk : 2 * k ≤ 64) (h : (inv : Int) * n ≡ 1 [ZMOD ((2 ^ k : Nat) : Int)]) :
+    (minvStep inv n : Int) * n ≡ 1 [ZMOD ((2 ^ (2 * k) : Nat) : Int)] := by
+  have h1 := (minvStep_modEq inv n).mul_right (n : Int)
+  have hd : ((2 ^ (2 * k) : Nat) : Int) ∣ (B : Int) := by
+    have : 2 ^ (2 * k) ∣ B := by rw [B_eq_two_pow]; exact Nat.pow_dvd_pow 2 hk
+    exact_mod_cast this
+  have h2 := h1.of_dvd hd
+  have h3 := newton_step _ _ _ h
+  have e : ((2 ^ (2 * k) : Nat) : Int) = ((2 ^ k : Nat) : Int) * ((2 ^ k : Nat) : Int) := by
+    push_cast; rw [← pow_add]; congr 1; omega
+  rw [e] at h2 ⊢
+  exact h2.trans h3
+
+/-- modlimb_invert (gmp-impl.h:3087): the inverse of an odd limb modulo `B`. -/
+theorem modlimb_invert_spec (n : Nat) (hodd : n % 2 = 1) : (modlimb_invert n * n) % B = 1 := by
+  have h8 : ((minvTab ((n / 2) % 128) : Nat) : Int) * n ≡ 1 [ZMOD ((2 ^ 8 : Nat) : Int)] := by
+    have ht := minvTab_spec ((n / 2) % 128) (Nat.mod_lt _ (by decide))
+    have hn : n ≡ 2 * ((n / 2) % 128) + 1 [MOD 256] := by unfold Nat.ModEq; omega
+    have : minvTab ((n / 2) % 128) * n ≡ 1 [MOD 2 ^ 8] :=
+      (hn.mul_left _).trans (by unfold Nat.ModEq; rw [ht])
+    exact_mod_cast (Int.natCast_modEq_iff.mpr this)
+  have h16 := minvStep_lift _ n 8 (by decide) h8
+  have h32 := minvStep_lift _ n 16 (by decide) h16
+  have h64 := minvStep_lift _ n 32 (by decide) h32
+  have : modlimb_invert n * n ≡ 1 [MOD 2 ^ 64] := by
+    apply Int.natCast_modEq_iff.mp
+    push_cast
+    unfold modlimb_invert
+    exact_mod_cast h64
+  have hB : (1 : Nat) % B = 1 := by simp [B_eq]
+  rw [← hB]; exact this
+
+/-- the `Nprim` mpn_powm passes to redc_1: `−m0⁻¹ mod B`. -/
+theorem neg_modlimb_invert_spec (m0 : Nat) (hodd : m0 % 2 = 1) :
+    (((B - modlimb_invert m0) % B) * m0) % B = B - 1 := by
+  have h := modlimb_invert_spec m0 hodd
+  have hlt : modlimb_invert m0 % B < B := Nat.mod_lt _ B_pos
+  -- work modulo B with x = minv % B
+  have hx : (modlimb_invert m0 % B * m0) % B = 1 := by rw [Nat.mul_mod, Nat.mod_mod, ← Nat.mul_mod]; exact h
+  have hsub : (B - modlimb_invert m0) % B = (B - modlimb_invert m0 % B) % B := by
+    have hminv : modlimb_invert m0 < B := by
+      unfold modlimb_invert minvStep; exact Nat.mod_lt _ B_pos
+    rw [Nat.mod_eq_of_lt hminv]
+  rw [hsub]
+  generalize modlimb_invert m0 % B = x at *
+  have hx0 : x ≠ 0 := by
+    intro h0; subst h0; simp [B_eq] at hx
+  rw [Nat.mod_eq_of_lt (show B - x < B by omega)]
+  have e : (B - x) * m0 + x * m0 = B * m0 := by rw [← Nat.add_mul]; congr 1; omega
+  have h2 : ((B - x) * m0 + x * m0) % B = 0 := by rw [e]; exact Nat.mul_mod_right _ _
+  have h3 := Nat.mod_lt ((B - x) * m0) B_pos
+  rw [Nat.add_mod, hx] at h2
+  have : ((B - x) * m0 % B + 1) % B = 0 := h2
+  by_contra hne
+  have : (B - x) * m0 % B + 1 < B := by omega
+  rw [Nat.mod_eq_of_lt this] at h2; omega
+
+
+theorem natCast_mod_modEq (a P : Nat) : ((a % P : Nat) : Int) ≡ (a : Int) [ZMOD (P : Int)] :=
+  Int.natCast_modEq_iff.mpr (Nat.mod_modEq a P)
+
+/-- the Newton step of `binvertLoop`, as an integer congruence modulo `P`. -/
+theorem binvStep_modEq (u x P : Nat) (hP : 0 < P) :
+    (((x * (2 * P + 2 - (u * x) % P)) % P : Nat) : Int) ≡ (x : Int) * (2 - (u : Int) * x) [ZMOD (P : Int)] := by
+  refine (natCast_mod_modEq _ P).trans ?_
+  have hlt : (u * x) % P < P := Nat.mod_lt _ hP
+  have e : ((x * (2 * P + 2 - (u * x) % P) : Nat) : Int) = (x : Int) * (2 * (P : Int) + 2 - ((u * x % P : Nat) : Int)) := by
+    rw [Nat.cast_mul, Nat.cast_sub (by omega)]; push_cast; ring
+  rw [e]
+  apply Int.ModEq.mul_left
+  have h1 : ((u * x % P : Nat) : Int) ≡ (u : Int) * x [ZMOD (P : Int)] := by
+    have := natCast_mod_modEq (u * x) P
+    push_cast at this ⊢; exact this
+  have h2 : 2 * (P : Int) + 2 ≡ 2 [ZMOD (P : Int)] := Int.modEq_iff_dvd.mpr ⟨-2, by ring⟩
+  exact h2.sub h1
+
+theorem binvertLoop_spec (u n : Nat) : ∀ (fuel x prec : Nat), 1 ≤ prec → n ≤ prec * 2 ^ fuel →
+    (x : Int) * u ≡ 1 [ZMOD ((B ^ prec : Nat) : Int)] →
+    ((binvertLoop u n fuel x prec : Nat) : Int) * u ≡ 1 [ZMOD ((B ^ n : Nat) : Int)] := by
+  intro fuel
+  induction fuel with
+  | zero =>
+    intro x prec _ hn h
+    simp only [pow_zero, Nat.mul_one] at hn
+    unfold binvertLoop
+    have hd : ((B ^ n : Nat) : Int) ∣ ((B ^ prec : Nat) : Int) := by exact_mod_cast Nat.pow_dvd_pow B hn
+    exact ((natCast_mod_modEq x (B ^ n)).mul_right _).trans (h.of_dvd hd)
+  | succ f ih =>
+    intro x prec hp hn h
+    unfold binvertLoop
+    by_cases hge : prec ≥ n
+    · simp only [hge, if_true]
+      have hd : ((B ^ n : Nat) : Int) ∣ ((B ^ prec : Nat) : Int) := by exact_mod_cast Nat.pow_dvd_pow B hge
+      exact ((natCast_mod_modEq x (B ^ n)).mul_right _).trans (h.of_dvd hd)
+    · simp only [hge, if_false]
+      apply ih _ (2 * prec) (by omega) (by rw [pow_succ] at hn; linarith)
+      have hPpos : 0 < B ^ (2 * prec) := Nat.pow_pos B_pos
+      have h1 := (binvStep_modEq u x (B ^ (2 * prec)) hPpos).mul_right (u : Int)
+      have h2 := newton_step _ _ _ h
+      have e : ((B ^ (2 * prec) : Nat) : Int) = ((B ^ prec : Nat) : Int) * ((B ^ prec : Nat) : Int) := by
+        push_cast; rw [← pow_add]; congr 1; omega
+      rw [e] at h1 ⊢
+      exact h1.trans h2
+
+/-- mpn_binvert (value level): `binvert u n · u ≡ 1 (mod B^n)` for odd `u`, `n ≥ 1`. -/
+theorem binvert_spec (u n : Nat) (hn : 1 ≤ n) (hodd : u % 2 = 1) : (binvert u n * u) % B ^ n = 1 := by
+  unfold binvert
+  have hBn : B ∣ B ^ n := by
+    have : B ^ 1 ∣ B ^ n := Nat.pow_dvd_pow B hn
+    simpa using this
+  -- starting value
+  have hu0 : (u % B) % 2 = 1 := by
+    rw [Nat.mod_mod_of_dvd _ (by rw [B_eq_two_pow]; exact Dvd.intro_left (2 ^ 63) rfl)]; exact hodd
+  have h0 : ((modlimb_invert (u % B) : Nat) : Int) * ((u % B ^ n : Nat) : Int) ≡ 1 [ZMOD ((B ^ 1 : Nat) : Int)] := by
+    have hs := modlimb_invert_spec (u % B) hu0
+    have h1 : modlimb_invert (u % B) * (u % B ^ n) ≡ modlimb_invert (u % B) * (u % B) [MOD B] := by
+      apply Nat.ModEq.mul_left
+      unfold Nat.ModEq
+      rw [Nat.mod_mod_of_dvd _ hBn, Nat.mod_mod]
+    have h2 : modlimb_invert (u % B) * (u % B) ≡ 1 [MOD B] := by
+      unfold Nat.ModEq; rw [hs]; simp [B_eq]
+    have := h1.trans h2
+    rw [pow_one]
+    exact_mod_cast (Int.natCast_modEq_iff.mpr this)
+  have hfuel : n ≤ 1 * 2 ^ n := by rw [Nat.one_mul]; exact le_of_lt Nat.lt_two_pow_self
+  have h := binvertLoop_spec (u % B ^ n) n n _ 1 (le_refl _) hfuel h0
+  -- back to u and to Nat
+  have h3 : ((binvertLoop (u % B ^ n) n n (modlimb_invert (u % B)) 1 : Nat) : Int) * (u : Int) ≡ 1 [ZMOD ((B ^ n : Nat) : Int)] :=
+    ((natCast_mod_modEq u (B ^ n)).symm.mul_left _).trans h
+  have h4 : binvertLoop (u % B ^ n) n n (modlimb_invert (u % B)) 1 * u ≡ 1 [MOD B ^ n] := by
+    apply Int.natCast_modEq_iff.mp; push_cast; exact h3
+  have h1lt : 1 < B ^ n := by
+    have h1 : B ^ 1 ≤ B ^ n := Nat.pow_le_pow_right B_pos hn
+    rw [pow_one] at h1
+    have hB : 1 < B := by simp [B_eq]
+    omega
+  unfold Nat.ModEq at h4
+  rw [h4, Nat.mod_eq_of_lt h1lt]
+
+
 end Mpir.Powm
